@@ -37,6 +37,7 @@ from insights.formats._json import JsonFormat, JsonFormatterAdapter
 from insights.formats._yaml import YamlFormat, YamlFormatterAdapter
 
 KNOWN_SKIP_STUB = "skip-stub-anonymous"
+KNOWN_RERUN = "rerun-reobserves"
 LIMIT_KEY = "max_detail_length"
 
 
@@ -72,6 +73,18 @@ GENERIC = {c.__name__: c for c in (plugins.make_fail, plugins.make_response, plu
 GENERIC.update({c.__name__: c for c in CUSTOM})
 SELECTABLE = {"rule": "reports", "info": "info", "pass": "pass", "none": "none", "fingerprint": "fingerprints",
               "metadata": None}
+
+
+# values a rule may return that are neither None nor a Response: every falsy kind and some truthy ones
+OTHER_VALUES = {
+    "False": lambda: False, "0": lambda: 0, "0.0": lambda: 0.0, "''": lambda: "", "b''": lambda: b"",
+    "[]": lambda: [], "{}": lambda: {}, "()": lambda: (), "set()": lambda: set(), "frozenset()": lambda: frozenset(),
+    "True": lambda: True, "1": lambda: 1, "'x'": lambda: "x", "[1]": lambda: [1], "{'a':1}": lambda: {"a": 1},
+    "object()": lambda: object(), "int": lambda: 5, "str": lambda: "make_fail",
+    "dict": lambda: {"type": "rule", "error_key": "K"}, "list": lambda: [1], "cls": lambda: plugins.make_fail,
+}
+FALSY_OTHERS = [k for k, f in OTHER_VALUES.items() if not f()]
+TRUTHY_OTHERS = [k for k in OTHER_VALUES if k not in FALSY_OTHERS]
 
 
 class Crash(Exception):
@@ -201,7 +214,7 @@ def act_fields(act):
     if k in ("mknone", "none"):
         return ["none"]
     if k == "other":
-        return ["other"]
+        return ["other", "1" if OTHER_VALUES[act["v"]]() else "0"]
     if k == "raise":
         e = act["e"]
         return ["raise", e if e in ("skip", "content", "calledProc") else "other%d" % act["n"]]
@@ -448,8 +461,7 @@ class RuleSet(object):
             if k == "none":
                 return None
             if k == "other":
-                return {"int": 5, "str": "make_fail", "dict": {"type": "rule", "error_key": "K"}, "list": [1],
-                        "cls": plugins.make_fail}[act["v"]]
+                return OTHER_VALUES[act["v"]]()
             e = act["e"]
             if e == "skip":
                 raise SkipComponent("deliberate")
@@ -629,10 +641,13 @@ def expected_details(cls, key, kw, limit):
     return full
 
 
-def oracle_ruleset(rs, results, skips, exc_ids, metadata, mdkeys, b, limit, order):
-    """results: {type: [entry dict]}, skips: [dict], exc_ids: set of rule ids with a recorded exception.
-    Returns a list of (description, finding-or-None)."""
+def oracle_ruleset(rs, results, skips, exc_ids, metadata, mdkeys, b, limit, order, participants=None, refired={}):
+    """results: {type: [entry dict]}, skips: [dict], exc_ids: set of rule ids with a recorded exception;
+    participants: ids of the rules that took part in an evaluation (default: all); refired: {id: how often a
+    later evaluation of the same evaluator met the rule again} (input predicate of the known finding rerun-reobserves).
+    Multiplicities are counted (lists, not sets).  Returns a list of (description, finding-or-None)."""
     out = []
+    md_refired = False
     case = rs.case
     listed = {}
     for t, es in results.items():
@@ -650,7 +665,7 @@ def oracle_ruleset(rs, results, skips, exc_ids, metadata, mdkeys, b, limit, orde
     pos = {i: n for n, i in enumerate(order)}
     for r in sorted(case["rules"], key=lambda r: pos.get(r["id"], 10 ** 6)):
         name = rs.names[r["id"]]
-        want = spec_outcome(rs, r, b, limit)
+        want = spec_outcome(rs, r, b, limit) if (participants is None or r["id"] in participants) else ("nothing",)
         n_res, n_skip, n_exc = len(listed.get(name, [])), len(skipped.get(name, [])), 1 if r["id"] in exc_ids else 0
         merged = 0
         cls = None
@@ -670,10 +685,20 @@ def oracle_ruleset(rs, results, skips, exc_ids, metadata, mdkeys, b, limit, orde
             L, details = skip_render_len(rs, r, want[1], want[2])
             if L > limit:
                 finding = KNOWN_SKIP_STUB      # predicate on the input: the skip response's own rendering exceeds the limit
+        if r["id"] in refired:
+            if merged:
+                md_refired = True
+            if n_exc == 0 and total == exp_total * (1 + refired[r["id"]]):
+                # predicate on the input: later evaluations met this stored rule again, and it is listed exactly once
+                # more per such meeting — any other multiplicity is not this finding
+                finding = KNOWN_RERUN
         if total != exp_total:
             out.append(("rule %s (%s) is accounted %d times (results %d, skips %d, exception %d, merged %d), expected %d"
                         % (name, want[0], total, n_res, n_skip, n_exc, merged, exp_total), finding))
             continue
+        if want[0] == "exception" and rs.comps[r["id"]] in b:
+            out.append(("rule %s returned something that is not a response (or an invalid one) but has a value in the broker: %r"
+                        % (name, b[rs.comps[r["id"]]]), None))
         if want[0] == "exception" and n_exc != 1:
             out.append(("rule %s must be rejected with a recorded exception but was listed (results %d, skips %d)"
                         % (name, n_res, n_skip), None))
@@ -719,14 +744,15 @@ def oracle_ruleset(rs, results, skips, exc_ids, metadata, mdkeys, b, limit, orde
     if anonymous:
         # a skip entry that names no rule: attributed above as a missing skip entry (known finding) — nothing to add
         pass
+    mdf = KNOWN_RERUN if md_refired else None      # a re-observed metadata response is merged again, out of order
     for k, v in md_expect.items():
         if k not in metadata or metadata[k] != v:
-            out.append(("metadata %r: expected %r (last writer in run order), got %r" % (k, v, metadata.get(k)), None))
+            out.append(("metadata %r: expected %r (last writer in run order), got %r" % (k, v, metadata.get(k)), mdf))
     for k in metadata:
         if k not in md_expect:
             out.append(("metadata has %r which no metadata response set" % k, None))
     if mdkeys != mdk_expect:
-        out.append(("metadata keys %r, expected %r" % (mdkeys, mdk_expect), None))
+        out.append(("metadata keys %r, expected %r" % (mdkeys, mdk_expect), mdf))
     return out
 
 
@@ -802,7 +828,10 @@ EXC_KINDS = ["skip", "skip", "content", "calledProc", "crash", "crash", "timeout
 SHOW_CHOICES = ["fail", "info", "pass", "none", "metadata", "fingerprint"]
 
 
-def gen_case(rng, quick):
+def gen_case(rng, quick, mode=None):
+    """mode None: one rule set.  "disjoint" / "dependent": the rules are split into groups A and B for histories of
+    several evaluations; a rule depends only on bases and on earlier rules of its own group (dependent: B rules
+    may also depend on A rules)."""
     nb = rng.randint(1, 4)
     bases = []
     for i in range(nb):
@@ -815,7 +844,12 @@ def gen_case(rng, quick):
     for j in range(nr):
         rid = nb + j
         lower = list(range(rid))
-        r = {"id": rid, "module": rng.choice(MODULES), "requires": [], "alo": [], "optional": [], "ignore": [],
+        group = None
+        if mode:
+            group = "A" if (j == 0 or rng.random() < 0.5) else "B"
+            lower = list(range(nb)) + [x["id"] for x in rules
+                                       if x["group"] == group or (mode == "dependent" and group == "B")]
+        r = {"id": rid, "group": group, "module": rng.choice(MODULES), "requires": [], "alo": [], "optional": [], "ignore": [],
              "enabled": rng.random() > 0.1,
              "tags": rng.choice([None, [], ["t1"], ["t1", "t2", "t1"], ["sec", "é"]]),
              "links": rng.choice([None, None, {}, {"kcs": ["https://a/1"]}, {"kcs": ["u1", "u2"], "jira": []}])}
@@ -836,10 +870,10 @@ def gen_case(rng, quick):
             act = gen_ctor(rng, 0.7)
             if rng.random() < 0.35 and limit != 65535:
                 act = pad_to_limit(rng, act, limit)
-        elif x < 0.72:
+        elif x < 0.70:
             act = {"k": rng.choice(["none", "none", "mknone"])}
-        elif x < 0.80:
-            act = {"k": "other", "v": rng.choice(["int", "str", "dict", "list", "cls"])}
+        elif x < 0.82:
+            act = {"k": "other", "v": rng.choice(FALSY_OTHERS + FALSY_OTHERS + TRUTHY_OTHERS)}
         else:
             act = {"k": "raise", "e": rng.choice(EXC_KINDS), "n": rng.randint(1, 5)}
         r["act"] = act
@@ -998,6 +1032,185 @@ def final_tags(model_state_line):
         return []
 
 
+# --------------------------------------------------------------------------- histories of one evaluator object
+
+HISTORY_KINDS = ["seq-disjoint", "seq-dependent", "seq-overlap", "seq-same", "with-process", "with-with-run",
+                 "with-run", "pre-process", "multi-add", "process-with-run"]
+EVALUATORS = {"SingleEvaluator": SingleEvaluator, "InsightsEvaluator": InsightsEvaluator,
+              "JsonFormat": JsonFormat, "YamlFormat": YamlFormat}
+ALL_TYPES = ["rule", "info", "pass", "none", "metadata", "fingerprint"]
+
+
+def make_evaluator(name, b, buf):
+    E = EVALUATORS[name]
+    if name in ("JsonFormat", "YamlFormat"):
+        return E(b, missing=True, show_rules=list(ALL_TYPES), stream=buf)
+    return E(b, stream=buf)
+
+
+def run_history(rs, ev_name, kind):
+    """one evaluator object used the way `kind` says.  Returns (lines, impl answers, kinds, oracle findings)."""
+    case = rs.case
+    limit = case["limit"]
+    rule_ids = set(rs.rule_ids)
+    groups = {g: [r["id"] for r in case["rules"] if r.get("group") == g] for g in ("A", "B")}
+    base_ids = [x["id"] for x in case["bases"]]
+
+    def graph(ids):
+        return {rs.comps[i]: set(dr.get_delegate(rs.comps[i]).dependencies) for i in base_ids + list(ids)}
+    gA, gB, gAll = graph(groups["A"]), graph(groups["B"]), graph(rs.rule_ids)
+    lines = rs.decl_lines() + ["hnew"]
+    runs = []
+    fails = []
+    with Limit(limit):
+        b = rs.broker()
+        buf = io.StringIO()
+        e = make_evaluator(ev_name, b, buf)
+        marks = []
+        _post = e.postprocess
+
+        def post():                      # harness-side: remember where each printed document starts
+            marks.append(buf.tell())
+            _post()
+        e.postprocess = post
+
+        def reg():
+            lines.append("hreg\t0")
+
+        def ran(g, start):
+            keys = set(rs.ids[c] for c in g)
+            fired = [i for i in b.vorder[start:] if i in rule_ids]
+            lines.append("hrun\t" + (",".join("%d:%d" % (i, i in keys) for i in fired) or "-"))
+            runs.append((keys & rule_ids, fired))
+
+        def process(g):
+            reg()
+            start = len(b.vorder)
+            e.process(g)
+            ran(g, start)
+
+        def drrun(g):
+            start = len(b.vorder)
+            dr.run(g, broker=e.broker)
+            ran(g, start)
+
+        if kind in ("seq-disjoint", "seq-dependent"):
+            process(gA)
+            process(gB)
+        elif kind == "seq-overlap":
+            process(gA)
+            process(gAll)
+        elif kind == "seq-same":
+            process(gAll)
+            process(gAll)
+        elif kind == "with-process":
+            reg()
+            with e as ee:
+                process(gAll)
+                assert ee is e
+        elif kind == "with-with-run":
+            reg()
+            with e:
+                reg()
+                with e:
+                    drrun(gAll)
+        elif kind == "with-run":
+            reg()
+            with e:
+                drrun(gAll)
+        elif kind == "pre-process":
+            reg()
+            e.preprocess()
+            process(gAll)
+        elif kind == "multi-add":
+            for _ in range(2):
+                reg()
+                e.broker.add_observer(e.observer)
+            process(gAll)
+        elif kind == "process-with-run":
+            process(gA)
+            reg()
+            with e:
+                drrun(gB)
+        else:
+            raise ValueError(kind)
+        resp = e.get_response()
+        st = rs.canon_state(e, b)
+    lines.append("hstate")
+    impl = ["ok"] * (len(lines) - 1) + [st]
+    kinds = ["decl"] * (len(lines) - 1) + ["state:history"]
+    participants = set()
+    refired = {}
+    order = []
+    for keys, fired in runs:
+        for i in fired:
+            if i in participants:
+                refired[i] = refired.get(i, 0) + 1
+        participants |= keys
+        order += [i for i in fired if i not in order]
+    exc_ids = set(int(i) for i in st["excs"])
+    views = [("get_response", resp)]
+    if ev_name in ("JsonFormat", "YamlFormat"):
+        text = buf.getvalue()[marks[-1]:] if marks else buf.getvalue()
+        try:
+            if ev_name == "JsonFormat":
+                shown = json.loads(text)
+            else:
+                shown = yaml.unsafe_load(text)
+            if not isinstance(shown, dict):
+                raise ValueError("printed %r" % text[:80])
+            views.append(("printed", shown))
+        except Exception as ex:
+            fails.append(("%s %s: the printed output cannot be read back: %s" % (ev_name, kind, ex), None))
+    for vname, v in views:
+        for desc, finding in oracle_ruleset(rs, results_from_response(v), [dict(x) for x in v.get("skips", [])], exc_ids,
+                                            dict(v.get("system", {}).get("metadata", {})), dict(e.metadata_keys), b, limit,
+                                            order, participants=participants, refired=refired):
+            fails.append(("%s history %s, %s: %s" % (ev_name, kind, vname, desc), finding))
+    return lines, impl, kinds, fails
+
+
+def gen_history(rng, quick):
+    kind = rng.choice(HISTORY_KINDS)
+    mode = "dependent" if kind == "seq-dependent" or rng.random() < 0.25 else "disjoint"
+    case = gen_case(rng, quick, mode=mode)
+    case["fmts"] = []
+    return {"kind": "history", "case": case, "history": kind,
+            "evaluator": rng.choice(["SingleEvaluator", "InsightsEvaluator", "JsonFormat", "YamlFormat"])}
+
+
+def nonresponse_case():
+    """every kind of return value that is neither None nor a Response, all dependencies met, plus a None"""
+    rules = []
+    for j, v in enumerate(sorted(OTHER_VALUES)):
+        rules.append({"id": 1 + j, "group": "A", "module": MODULES[j % len(MODULES)], "requires": [0], "alo": [], "optional": [],
+                      "ignore": [], "enabled": True, "tags": None, "links": None, "act": {"k": "other", "v": v}})
+    rules.append({"id": 1 + len(rules), "group": "A", "module": MODULES[0], "requires": [0], "alo": [], "optional": [], "ignore": [],
+                  "enabled": True, "tags": None, "links": None, "act": {"k": "none"}})
+    return {"limit": 65535, "store_skips": False, "bases": [{"id": 0, "how": "seed"}], "rules": rules,
+            "fmts": [{"kind": "json", "missing": True, "fail_only": False, "show": list(SHOW_CHOICES)},
+                     {"kind": "yaml", "missing": True, "fail_only": False, "show": []}]}
+
+
+RERUN_WITNESS = {
+    "kind": "history", "history": "seq-same", "evaluator": "SingleEvaluator",
+    "case": {"limit": 65535, "store_skips": False, "bases": [{"id": 0, "how": "seed"}],
+             "rules": [{"id": 1, "group": "A", "module": MODULES[0], "requires": [0], "alo": [], "optional": [], "ignore": [],
+                        "enabled": True, "tags": None, "links": None,
+                        "act": {"k": "ret", "cls": "make_fail", "key": "K1", "kw": []}}], "fmts": []},
+}
+
+
+def witness_rerun():
+    """e.process(graph) twice on the same evaluator: the rule of the first evaluation is listed twice"""
+    rs = RuleSet(RERUN_WITNESS["case"])
+    b = rs.broker()
+    e = SingleEvaluator(b, stream=io.StringIO())
+    e.process(rs.graph)
+    resp = e.process(rs.graph)
+    return len(resp["reports"]) == 2, [x["component"] for x in resp["reports"]]
+
+
 # --------------------------------------------------------------------------- known finding witness
 
 WITNESS_CASE = {
@@ -1077,6 +1290,7 @@ def run(chk):
     n_repr = 1500 if quick else 40000
     n_mk = 6000 if quick else 150000
     n_sets = 800 if quick else 12000
+    n_hist = 400 if quick else 6000
     chk.rule = ("rule sets: 1-4 base components (seeded / run / raising / skipping) and 1-10 (thorough: 24) fresh @rule functions in four fake "
                 "modules, two of which share their simple name, with required / at-least-one / optional dependencies on bases and on "
                 "earlier rules, IGNORE entries, 10% disabled, shared keys K1/K2, every return kind (the five keyed make_* classes, "
@@ -1089,6 +1303,12 @@ def run(chk):
                 "constructor generator with a limit steered to length-1/length/length+1. non-trivial = a rule set whose outcome "
                 "vector (per-rule classification) was not seen before and has at least two different outcome classes; for "
                 "constructors a distinct (class, key, kwargs, limit) that is either rejected or stubbed or accepted with kwargs")
+    chk.rule += ("; histories: the same generator with the rules split into two groups (B may depend on A), one evaluator "
+                 "object (SingleEvaluator / InsightsEvaluator / JsonFormat / YamlFormat) used as: two process() calls on disjoint, "
+                 "dependent, overlapping or identical graphs; with e: e.process(); nested with + dr.run; with e: dr.run; preprocess() "
+                 "then process(); add_observer of the bound method twice then process(); process() then with e: dr.run — the first "
+                 "40 cases enumerate kind x evaluator; non-response returns: False, 0, 0.0, '', b'', [], {}, (), set(), frozenset(), "
+                 "True, 1, 'x', [1], {'a':1}, object(), a class, a look-alike dict (one fixed case with all of them + random)")
     chk.assumptions = [
         "the body of a rule is a fixed action (it does not look at its arguments); argument binding is C02's subject",
         "repr() of str is modelled for ASCII exactly and takes code points >= 0xa1 other than U+00AD as printable; values inside responses are None/bool/int/str/list of str",
@@ -1113,6 +1333,11 @@ def run(chk):
     chk.witnesses.append({"id": KNOWN_SKIP_STUB, "skips": skips, "reproduces": ok})
     if ok:
         chk.finding_reproduced(KNOWN_SKIP_STUB)
+    ok, comps = witness_rerun()
+    chk.witnesses.append({"id": KNOWN_RERUN, "reports after e.process(g); e.process(g)": comps, "reproduces": ok})
+    if ok:
+        chk.finding_reproduced(KNOWN_RERUN)
+
     # ---- regression (fixed 4daf5f3): the YAML adapter path prints and honours -S
     problems, info = regression_yaml_adapter()
     chk.witnesses.append({"fixed": "4daf5f3 yaml adapter arguments", "observed": info, "passes": not problems})
@@ -1215,6 +1440,7 @@ def run(chk):
         for fn in sorted(os.listdir(corpus_dir)):
             if fn.endswith(".json"):
                 corpus.append(json.load(open(os.path.join(corpus_dir, fn)))["case"])
+    corpus = [c for c in corpus if "rules" in c] + [nonresponse_case()]
     for idx in range(n_sets + len(corpus)):
         case = corpus[idx] if idx < len(corpus) else gen_case(rng, quick)
         rs = RuleSet(case)
@@ -1226,6 +1452,24 @@ def run(chk):
         chk.count("rules:%d" % len(case["rules"]))
         chk.count("limit:%s" % ("default" if case["limit"] == 65535 else "small"))
         chk.count("store_skips:%d" % case["store_skips"])
+    # ---- 7. histories: one evaluator object entered / registered / used several times
+    combos = [(k, e) for k in HISTORY_KINDS for e in sorted(EVALUATORS)]
+    for idx in range(n_hist):
+        h = gen_history(rng, quick)
+        if idx < len(combos):
+            h["history"], h["evaluator"] = combos[idx]
+            if h["history"] == "seq-dependent":
+                h = dict(gen_history(rng, quick), history="seq-dependent", evaluator=combos[idx][1])
+                h["case"] = dict(gen_case(rng, quick, mode="dependent"), fmts=[])
+        rs = RuleSet(h["case"])
+        lines, impl, kinds, fails = run_history(rs, h["evaluator"], h["history"])
+        segments.append((h, rs, len(all_lines), lines, impl, kinds))
+        all_lines.extend(lines)
+        for desc, finding in fails:
+            chk.failure(desc, h, finding=finding)
+        chk.count("history:" + h["history"])
+        chk.count("history-evaluator:" + h["evaluator"])
+        chk.case(("history", J(h)), len(h["case"]["rules"]) >= 2)
     model = run_driver("C12", all_lines)
     n_cmp = {}
     for case, rs, off, lines, impl, kinds in segments:
@@ -1240,12 +1484,16 @@ def run(chk):
                     s[2] = s[2] or {"case": case, "answer": d[2]}
                 continue
             stream = {"state": "ruleset-state", "report": "formatter-output", "adapter": "ruleset-adapter"}[name]
+            if k == "state:history":
+                stream = "history-state"
             s = n_cmp.setdefault(stream, [0, 0, None])
             s[0] += 1
             if d is not None:
                 s[1] += 1
                 if s[2] is None:
                     s[2] = {"case": case, "which": d[0], "impl": d[1], "model": d[2]}
+        if case.get("kind") == "history":
+            continue
         tags = []
         for k, a in zip(kinds, ans):
             if k == "state:SingleEvaluator":
@@ -1259,6 +1507,10 @@ def run(chk):
         chk.stream(stream, n, bad)
         if bad:
             chk.tie_broken("correspondence:" + stream, "%d of %d answers differ" % (bad, n), first)
+    hs = [x for x in segments if x[0].get("kind") == "history"]
+    if hs:
+        chk.sample({"history": {k: v for k, v in hs[0][0].items() if k != "case"}, "rules": len(hs[0][0]["case"]["rules"]),
+                    "protocol": [l for l in hs[0][3] if l.startswith("h")]}, limit=8)
     if segments:
         case, rs, off, lines, impl, kinds = segments[min(3, len(segments) - 1)]
         chk.sample({"rule set": case, "SingleEvaluator state (canonical, strings hex)": impl[kinds.index("state:SingleEvaluator")]}, limit=8)
@@ -1283,6 +1535,24 @@ def replay_ruleset(case):
     return bad, differs
 
 
+def replay_history(h):
+    """(oracle violated, model differs)"""
+    rs = RuleSet(h["case"])
+    lines, impl, kinds, fails = run_history(rs, h["evaluator"], h["history"])
+    print("history %s on %s: %s" % (h["history"], h["evaluator"], " ".join(l.replace("\t", " ") for l in lines if l.startswith("h"))))
+    bad = differs = 0
+    for desc, finding in fails:
+        print("oracle:", desc[:1200], "[known finding %s]" % finding if finding else "")
+        if finding is None:
+            bad = 1
+    model = run_driver("C12", cls_lines() + lines)[len(cls_lines()):]
+    for d in compare_answers(rs, kinds, impl, model):
+        if d is not None:
+            differs = 1
+            print("model differs on %s:\n  impl  %s\n  model %s" % (d[0], J(d[1])[:1200], J(d[2])[:1200] if not isinstance(d[2], str) else d[2][:1200]))
+    return bad, differs
+
+
 def replay(data):
     if data.get("kind") == "broken-tie":
         # no failing input was found: show what no longer checks and re-run the recorded disagreeing cases
@@ -1291,7 +1561,9 @@ def replay(data):
             print("no longer checks:", b.get("what"), "-", str(b.get("detail"))[:300])
             c = b.get("case") or {}
             inner = c.get("case") if isinstance(c, dict) else None
-            if isinstance(inner, dict) and "rules" in inner:
+            if isinstance(inner, dict) and inner.get("kind") == "history":
+                rc |= replay_history(inner)[1]
+            elif isinstance(inner, dict) and "rules" in inner:
                 rc |= replay_ruleset(inner)[1]
             elif isinstance(inner, dict) and inner.get("kind") in ("mk", "adapter"):
                 replay({"case": inner})
@@ -1322,6 +1594,8 @@ def replay(data):
             bad = False
     elif kind == "ruleset":
         bad = bool(replay_ruleset(c["case"])[0])
+    elif kind == "history":
+        bad = bool(replay_history(c)[0])
     elif kind == "yaml-adapter":
         problems, info = regression_yaml_adapter()
         print("observed:", info)
